@@ -144,7 +144,31 @@ fn infer(before: &Snap, after: &Snap, tree: &AnyTree, wm: SeqNo, drop_hint: bool
     Ok(Some(format!("drop ids= wm={wm}")))
 }
 
-pub fn campaign(seed: u64, cases: u64, mode_inflight: bool, blob: bool, st: &mut Stats) {
+/// replay one sequential step of the prelude through the model: the label is inferred from the state difference (or forced)
+#[allow(clippy::too_many_arguments)]
+fn sync_step(drv: &mut Option<Drv>, tree: &AnyTree, dir: &std::path::Path, ctr: u64, vis: u64, before: &mut Snap, forced: Option<&str>) -> Option<String> {
+    let after = snap(tree);
+    let req = match forced {
+        Some(r) => Some(r.to_string()),
+        None => match infer(before, &after, tree, 0, false) {
+            Ok(r) => r,
+            Err(e) => return Some(format!("prelude: {e}")),
+        },
+    };
+    *before = after;
+    if let (Some(d), Some(req)) = (drv.as_mut(), req) {
+        let reply = d.ask(&req);
+        let real = canon_state_raw(tree, dir, ctr, vis);
+        let want = format!("digest={}", digest_of(&real));
+        if !reply.starts_with(&want) || !reply.ends_with("inv=ok") {
+            let dump = d.ask("dump");
+            return Some(format!("prelude label `{}`: model reply `{}`\n   real : {real}\n   model: {dump}", &req[..req.len().min(200)], &reply[..reply.len().min(80)]));
+        }
+    }
+    None
+}
+
+pub fn campaign(seed: u64, cases: u64, mode_inflight: bool, blob: bool, deep: bool, st: &mut Stats) {
     let sched = SCHED.get_or_init(|| Arc::new(Sched { st: Mutex::new(SchedState::default()), cv: Condvar::new() })).clone();
     let _ = va::SCHED_HOOK.set(Box::new(point));
     let mut drv = if mode_inflight { None } else { Some(Drv::spawn()) };
@@ -162,8 +186,38 @@ pub fn campaign(seed: u64, cases: u64, mode_inflight: bool, blob: bool, st: &mut
                 c
             }
         };
-        let tree = mk(&seqno, &vis).open().unwrap();
-        let n_writes = 12 + rng.below(30);
+        let mut tree = mk(&seqno, &vis).open().unwrap();
+        if let Some(d) = drv.as_mut() {
+            let req = if blob { "new levels=7 blob=8".to_string() } else { "new levels=7".to_string() };
+            d.ask(&req);
+        }
+        // oracle log: (seqno, key idx, Some(value) | None=delete), appended BEFORE the insert; `acked` = highest seqno whose insert returned
+        let log: Arc<Mutex<Vec<(SeqNo, u8, Option<Vec<u8>>)>>> = Arc::new(Mutex::new(vec![]));
+        let nkeys = 3 + rng.below(4) as u8;
+        let mut model_err: Option<String> = None;
+        // prelude (half of the cases): the threads start on a REOPENED tree (recovered counters, table ids, memtable ids)
+        if rng.chance(1, 2) {
+            let mut before = snap(&tree);
+            for _ in 0..(2 + rng.below(4)) {
+                let k = rng.below(u64::from(nkeys)) as u8;
+                let s = seqno.next();
+                let v = format!("v{s}{}", ".".repeat((s % 3) as usize * 6)).into_bytes();
+                log.lock().unwrap().push((s, k, Some(v.clone())));
+                tree.insert(key_of(k), v, s);
+                vis.fetch_max(s + 1);
+                model_err = model_err.or(sync_step(&mut drv, &tree, dir.path(), seqno.get(), vis.get(), &mut before, None));
+            }
+            tree.rotate_memtable();
+            model_err = model_err.or(sync_step(&mut drv, &tree, dir.path(), seqno.get(), vis.get(), &mut before, None));
+            tree.flush_active_memtable(0).unwrap();
+            model_err = model_err.or(sync_step(&mut drv, &tree, dir.path(), seqno.get(), vis.get(), &mut before, None));
+            drop(tree);
+            tree = mk(&seqno, &vis).open().unwrap();
+            model_err = model_err.or(sync_step(&mut drv, &tree, dir.path(), seqno.get(), vis.get(), &mut before, Some("reopen")));
+            st.count("id.cases_on_reopened_tree");
+        }
+        let tree = tree;
+        let n_writes = if deep { 80 + rng.below(80) } else { 12 + rng.below(30) };
         let n_compactors = 1 + rng.below(3) as usize; // at most 3 (wms has 8 slots)
         let n_readers = 1 + rng.below(2) as usize;
         let nthreads = 4 + n_compactors + n_readers; // 0 writer, 1 flusher, compactors, readers, major / drop_range, last: rotator
@@ -171,8 +225,6 @@ pub fn campaign(seed: u64, cases: u64, mode_inflight: bool, blob: bool, st: &mut
             let mut g = sched.st.lock().unwrap();
             *g = SchedState { current: None, waiting: vec![None; nthreads], done: vec![false; nthreads], trace: vec![], skip_write_point: !mode_inflight, ostid: vec![0; nthreads], blocked: vec![false; nthreads] };
         }
-        // oracle log: (seqno, key idx, Some(value) | None=delete), appended BEFORE the insert; `acked` = highest seqno whose insert returned
-        let log: Arc<Mutex<Vec<(SeqNo, u8, Option<Vec<u8>>)>>> = Arc::new(Mutex::new(vec![]));
         let inflight: Arc<Mutex<Option<SeqNo>>> = Arc::new(Mutex::new(None));
         let errors: Arc<Mutex<Vec<String>>> = Arc::new(Mutex::new(vec![]));
         let live_snaps: Arc<Mutex<Vec<SeqNo>>> = Arc::new(Mutex::new(vec![]));
@@ -182,7 +234,6 @@ pub fn campaign(seed: u64, cases: u64, mode_inflight: bool, blob: bool, st: &mut
         let major_op = Arc::new(AtomicU64::new(0));
         let mut blocked_seen = 0u64;
         let mut stalled = 0u32;
-        let nkeys = 3 + rng.below(4) as u8;
         let key = key_of;
         let mut hs = vec![];
         let spawn = |tid: usize, f: Box<dyn FnOnce() + Send>| {
@@ -246,7 +297,7 @@ pub fn campaign(seed: u64, cases: u64, mode_inflight: bool, blob: bool, st: &mut
         }
         {
             let (tree, errors, wm_now, wms) = (tree.clone(), errors.clone(), wm_now.clone(), wms.clone());
-            let n = 3 + rng.below(6);
+            let n = if deep { 12 + rng.below(18) } else { 3 + rng.below(6) };
             let mut frng = rng.fork_stream();
             hs.push(spawn(1, Box::new(move || {
                 for _ in 0..n {
@@ -261,13 +312,13 @@ pub fn campaign(seed: u64, cases: u64, mode_inflight: bool, blob: bool, st: &mut
         }
         for c in 0..n_compactors {
             let (tree, errors, wm_now, wms) = (tree.clone(), errors.clone(), wm_now.clone(), wms.clone());
-            let n = 4 + rng.below(10);
+            let n = if deep { 15 + rng.below(25) } else { 4 + rng.below(10) };
             let mut crng = rng.fork_stream();
             hs.push(spawn(2 + c, Box::new(move || {
                 for _ in 0..n {
                     let wm = wm_now(crng.next());
                     wms[2 + c].store(wm, Ordering::SeqCst);
-                    let strat = lsm_tree::compaction::Leveled::default().with_l0_threshold(1 + (crng.below(2) as u8)).with_table_target_size(*crng.pick(&[1u64, 64, 4096]));
+                    let strat = lsm_tree::compaction::Leveled::default().with_l0_threshold(1 + (crng.below(2) as u8)).with_table_target_size(*crng.pick(if deep { &[64u64, 128, 256][..] } else { &[1u64, 64, 4096][..] }));
                     if let Err(e) = tree.compact(Arc::new(strat), wm) {
                         errors.lock().unwrap().push(format!("C06 compact returned an error: {e:?}"));
                     }
@@ -277,7 +328,7 @@ pub fn campaign(seed: u64, cases: u64, mode_inflight: bool, blob: bool, st: &mut
         }
         for r in 0..n_readers {
             let (tree, log, errors, vis2, inflight, live_snaps, reads_checked) = (tree.clone(), log.clone(), errors.clone(), vis.clone(), inflight.clone(), live_snaps.clone(), reads_checked.clone());
-            let n = 6 + rng.below(10);
+            let n = if deep { 12 + rng.below(20) } else { 6 + rng.below(10) };
             let mut rrng = rng.fork_stream();
             hs.push(spawn(2 + n_compactors + r, Box::new(move || {
                 for _ in 0..n {
@@ -375,14 +426,9 @@ pub fn campaign(seed: u64, cases: u64, mode_inflight: bool, blob: bool, st: &mut
             })));
         }
         // ---- controller
-        let mut model_err: Option<String> = None;
         let mut steps = 0usize;
         let mut last_pick = 0usize;
         let mut before = snap(&tree);
-        if let Some(d) = drv.as_mut() {
-            let req = if blob { "new levels=7 blob=8".to_string() } else { "new levels=7".to_string() };
-            d.ask(&req);
-        }
         let mut prio: Vec<u64> = (0..nthreads).map(|_| rng.next()).collect(); // PCT-style priorities, changed now and then
         let pct = rng.chance(1, 2);
         loop {
